@@ -81,8 +81,23 @@ def generate(seed, tier):
         cfg["Jdes"] = min(cfg["Jdes"], 8)
         if cfg["scheduler"] == "custom":
             cfg["custom_plan"] = SC.gen_custom_plan(rw, N, cfg["fs"], max_bins=5, Lcap=40)
+    huge = (not sim) and amp_band is None and rw.random() < 0.006
+    if huge:        # records longer than 2**20 values: block-wise scans / batched paths inside the library
+        N = rw.choice([2 ** 20 + 3, 2 ** 20 + 4097]) if channels == 1 else rw.choice([2 ** 19 + 5, 2 ** 19 + 2051])
+        data["N"] = N
+        data["recipe"] = rw.choice(["noise", "sine+noise", "randwalk"])
+        bins = []
+        for j, L_ in enumerate(sorted(rw.sample([512, 4096, 65536, N // 2, N], 3), reverse=True)):
+            span = N - L_
+            starts = sorted({0, span} | {rw.randrange(0, span + 1) for _ in range(rw.randrange(0, 4))}) if span else [0]
+            bins.append([round((0.01 + 0.1 * j + 0.05 * rw.random()) * cfg["fs"], 6), L_, starts])
+        cfg.update({"scheduler": "custom", "custom_plan": bins, "Lmin": 1, "band": None, "force_target_nf": False, "olap": 0.5})
     layout = rw.choice(LAYOUTS_2 if channels == 2 else LAYOUTS_1)
+    if huge:
+        layout = rw.choice(["2xN", "Nx2", "Nx2_view", "fortran"] if channels == 2 else ["1d", "1d", "1d_offset"])
     dtype = rw.choice(DTYPES)
+    if huge:
+        dtype = rw.choice(["f8", "f8", "f4"])
     if layout in ("list_lists", "1d_list") and dtype != "f8":
         dtype = "f8"
     # fault plan (only float dtypes can carry non-finite values)
@@ -113,7 +128,16 @@ def generate(seed, tier):
         elif style == "all":
             k = kind()
             faults = [[ch, i, k] for ch in range(channels) for i in range(N)]
-    nops = rw.randrange(2, 8)
+    if huge and dtype in ("f8", "f4", ">f8", "longdouble"):
+        k = rf.choice(FAULT_KINDS)
+        where = rf.choice(["tail", "tail", "head", "both"])
+        faults = []
+        for ch in range(channels):
+            if where in ("tail", "both"):
+                faults += [[ch, N - 1 - i, k] for i in range(rf.randrange(1, 40))]
+            if where in ("head", "both"):
+                faults += [[ch, i, k] for i in range(rf.randrange(1, 5))]
+    nops = rw.randrange(2, 8) if not huge else 2
     ops = [["construct"]]
     for _ in range(nops):
         r = rw.random()
@@ -127,6 +151,8 @@ def generate(seed, tier):
             ops.append(["construct2"])
     if amp_band:
         dtype = "f8" if dtype not in ("f8", ">f8", "longdouble") else dtype
+    if huge:
+        ops = [["construct"], ["compute"], ["single", round(rw.uniform(0, 0.5), 5), rw.choice([4096, 65536, N])]]
     return {"world": W.gen_world(rf, world, 6), "data": data, "cfg": cfg, "layout": layout, "dtype": dtype, "faults": faults,
             "amp_band": amp_band, "ops": ops, "clock": CK.gen_clock(R.stream(seed, "clock"), p_none=0.5)}
 
@@ -257,6 +283,8 @@ def execute(sc, out):
     aliasing = isinstance(obj, np.ndarray) and obj.dtype == np.float64 and obj.flags.c_contiguous and obj.dtype.isnative
     if aliasing:
         out.count("aliasing_possible")
+    if logical.shape[-1] > 2 ** 19:
+        out.count("record_longer_than_2^20_values")
     out.count(f"layout_{sc['layout']}")
     out.count(f"dtype_{sc['dtype']}")
     clock = CK.SimClock(sc.get("clock"))
